@@ -362,13 +362,22 @@ def plan_case(rng, out, vendor):
     from amaranth.lib import io as aio
     from . import c19
     table = c19.gen_table(rng, for_plan=True)
+    if vendor == "ice40":
+        # some plain input pins are marked as global-buffer inputs (an attribute the iCE40 lowering consumes)
+        for r in table["resources"]:
+            nd = r["node"]
+            if nd[0] == "pins" and nd[2] == "i" and not nd[3] and rng.random() < 0.6:
+                r["node"] = (nd[0], nd[1], nd[2], nd[3], nd[4], nd[5], dict(nd[6], GLOBAL=1))
     use = [r for r in table["resources"] if rng.random() < 0.7] or table["resources"][:1]
     seedv = rng.getrandbits(32)
+    # one board definition (resource and connector objects), as a board file has it at class level; half of the
+    # cases prepare both plans from it, the others build the definition afresh for the second plan
+    shared = c19.build_table(table) if rng.random() < 0.5 else None
 
     def make_plan():
         import random
         r2 = random.Random(seedv)
-        ress, conns = c19.build_table(table)
+        ress, conns = shared if shared is not None else c19.build_table(table)
         p, cfile = c19.make_platform(vendor, ress, conns, None)
 
         class D(Elaboratable):
@@ -401,7 +410,7 @@ def plan_case(rng, out, vendor):
                             m.d.sync += x.eq(buf.i)
                 return m
         return p.build(D(), do_build=False)
-    cfg = {"vendor": vendor, "table": table}
+    cfg = {"vendor": vendor, "table": table, "board_definition_shared_by_both_plans": shared is not None}
     # the second preparation and the second and third archive run under a shifted wall clock (virtual time, so the
     # check does not have to wait for the seconds to pass) and from another working directory
     shift = rng.choice([3, 61, 3601, 86400 * 3, 86400 * 400])
@@ -513,7 +522,7 @@ def shards(tier, seed):
     specs = []
     for i in range(NSHARDS):
         specs.append({"seed": seed, "shard": i, "tier": tier, "conv": 24 if tier == "quick" else 200,
-                      "sims": 12 if tier == "quick" else 120, "plans": 3 if tier == "quick" else 30})
+                      "sims": 12 if tier == "quick" else 120, "plans": 9 if tier == "quick" else 60})
     return specs
 
 
